@@ -127,6 +127,25 @@ def value_transforms(ck):
                                 perm=lambda p, n=n: n - 1 - p)
 
 
+def integer_carriers(ck):
+    """An offset only cancels in exact arithmetic: differences / sums taken in a caller's integer dtype wrap around, so x -> x + d changes
+    them.  Necessary condition decided here: no arithmetic on the data is carried out in the integer dtype of the input."""
+    from ..repo import unparse
+    for name, (build, do_shift, do_neg) in TESTS_VALUE.items():
+        test = name.split(':')[0]
+        n = 4
+        args, kw = build(data_input('inp', 'p' * n, 'ndarray_int'), n)
+        c = Case(test, args, kw, label=f'{name}(data=integer ndarray)', meta={'class': 'invariance'})
+        o = run_case(ck, c, allow_refused=True)
+        if o.kind == 'refused':
+            from ..qc import concrete_envs, concretised
+            o = run_case(ck, concretised(c, next(concrete_envs([c], ck.rng, 1))))
+        ints = [e for e in o.events if e['kind'] == 'int-arith']
+        ck.ob('C17.value-shift', c.label, not ints, key=f'{fn_key(c)}:value-shift:integer-dtype-arithmetic',
+              what=f'{c.label}: arithmetic on the data runs in the integer dtype of the input '
+                   f'({unparse(ints[0]["node"], 70) if ints and ints[0].get("node") is not None else ""}): it wraps around, so adding a constant to all values changes the flags')
+
+
 def time_transforms(ck):
     SH = 86400 * 365 + 7
     ns = [3, 4]
@@ -219,6 +238,16 @@ def neighbourhoods():
     yield 'attenuated_signal_test', lambda p: ([data_input('inp', p), time_input('tinp', t(len(p)))],
                                                dict(suspect_threshold=Fr(2), fail_threshold=Fr(1), test_period=30, min_obs=2)), \
         (lambda j, n: set(range(j, j + 3)))
+    # irregular sampling: the neighbourhood is defined by time (the trailing window (t - period, t]), not by a number of observations
+    irr = [100, 110, 120, 300, 310, 320]
+    def in_window(period):
+        return lambda j, n: {q for q in range(n) if irr[q] - period < irr[j] <= irr[q]}
+    yield 'attenuated_signal_test', lambda p: ([data_input('inp', p), time_input('tinp', irr[:len(p)])],
+                                               dict(suspect_threshold=Fr(2), fail_threshold=Fr(1), check_type='range', test_period=20)), in_window(20)
+    yield 'attenuated_signal_test', lambda p: ([data_input('inp', p), time_input('tinp', irr[:len(p)])],
+                                               dict(suspect_threshold=Fr(2), fail_threshold=Fr(1), test_period=30, min_obs=2)), in_window(30)
+    yield 'attenuated_signal_test', lambda p: ([data_input('inp', p), time_input('tinp', irr[:len(p)])],
+                                               dict(suspect_threshold=Fr(2), fail_threshold=Fr(1), test_period=30, min_period=20)), in_window(30)
     yield 'climatology_test', lambda p: ([], dict(config=[dict(tspan=(_ts(0), _ts(10 ** 6)), vspan=(Fr(2), Fr(4)))], inp=data_input('inp', p),
                                                   tinp=time_input('tinp', t(len(p))), zinp=data_input('zinp', 'p' * len(p), values=[Fr(1)] * len(p)))), one
 
@@ -294,6 +323,7 @@ def run(ck):
         'outside its neighbourhood unchanged. Universal over values; lengths 3..5 (6 thorough). Float rounding is outside the claim (the '
         'property restricts to dyadic values).')
     value_transforms(ck)
+    integer_carriers(ck)
     time_transforms(ck)
     joint_shift(ck)
     locality(ck)
